@@ -56,7 +56,7 @@ package errors
 //@ use @verif/specs/stdlib.spec:stdlib
 //@ use @verif/specs/stdlib.spec:casket_api
 
-//@ unit errors_setup props=C12 filter=`errors\.setup$`
+//@ unit errors_setup props=C12,C11 filter=`errors\.setup$`
 //@ // The error handler logs through handler.Log on every error and every recovered panic; that logger only works after
 //@ // its Start hook ran (it creates the logger and its mutex), whatever the destination. So a successful setup has always
 //@ // attached the handler's own logger to the controller, exactly once.
